@@ -28,6 +28,7 @@ type Profile struct {
 	NoHostile                       bool
 	CaseHeavy                       bool
 	EmptyOften                      bool
+	NoLimit                         bool
 }
 
 type Gen struct {
@@ -349,8 +350,94 @@ func weighted(r *rand.Rand, w map[string]int) string {
 	return keys[0]
 }
 
+// asyncHistory: real-time scenarios for asynchronous writes (C10).  The flusher is observed
+// only after waits that are certainly long enough; `tick n` tells the model how many polls
+// have certainly happened.
+func asyncHistory(p *Profile, seed int64) []Op {
+	g := &Gen{r: rand.New(rand.NewSource(seed)), p: p, usedK: map[int]bool{}}
+	r := g.r
+	g.cons = g.genCons()
+	g.add(Op{Op: "open"})
+	byTimeout := r.Intn(2) == 0
+	thr, ms := 2+r.Intn(3), 3600*1000
+	if byTimeout {
+		thr, ms = 1000, 200+100*r.Intn(2)
+	}
+	g.add(Op{Op: "create", Cons: g.cons, Ext: ".json", Cache: r.Intn(2) == 0, Gz: r.Intn(4) == 0, AThr: thr, AMs: ms})
+	quiesce := func() {
+		if byTimeout {
+			g.add(Op{Op: "sleep", Ms: ms + 450})
+			g.add(Op{Op: "tick", N: uint64(asyncTicks(ms) + 2)})
+		} else {
+			g.add(Op{Op: "sleep", Ms: 450})
+			g.add(Op{Op: "tick", N: 3})
+		}
+	}
+	observe := func() {
+		g.add(Op{Op: "ls"})
+		for k := 1; k <= 6; k++ {
+			if g.usedK[k] {
+				g.add(Op{Op: "disk", K: k})
+				g.add(Op{Op: "get", K: k})
+				g.add(Op{Op: "exist", K: k})
+			}
+		}
+		g.add(Op{Op: "count"})
+	}
+	rounds := 2 + r.Intn(2)
+	for round := 0; round < rounds; round++ {
+		n := 1 + r.Intn(3)
+		if !byTimeout {
+			n = thr + r.Intn(2) // reach the threshold
+		}
+		for i := 0; i < n; i++ {
+			k := 1 + r.Intn(6)
+			g.usedK[k] = true
+			sp := g.spec(k)
+			g.add(Op{Op: "ins", Spec: &sp})
+			// visible at once through every read of the handle
+			g.add(Op{Op: "get", K: k})
+			g.add(Op{Op: "exist", K: k})
+			if r.Intn(4) == 0 {
+				g.add(Op{Op: "del", K: 1 + r.Intn(6)}) // possibly while its write is pending
+			}
+		}
+		switch r.Intn(6) {
+		case 0:
+			g.add(Op{Op: "flushall"})
+			observe()
+		case 1:
+			g.add(Op{Op: "flushallc"})
+			observe()
+		case 2:
+			// the only call after Open is an update
+			g.add(Op{Op: "close"})
+			g.add(Op{Op: "reopen"})
+			k := 1 + r.Intn(6)
+			g.usedK[k] = true
+			sp := g.spec(k)
+			g.add(Op{Op: "ins", Spec: &sp})
+			quiesce()
+			observe()
+		default:
+			quiesce()
+			observe()
+		}
+	}
+	g.add(Op{Op: "close"})
+	observe()
+	g.add(Op{Op: "reopen"})
+	g.add(Op{Op: "count"})
+	g.add(Op{Op: "control"})
+	g.add(Op{Op: "all"})
+	return g.ops
+}
+
 // History generates one history for the profile.
 func History(p *Profile, seed int64) []Op {
+	if p.Name == "async" {
+		return asyncHistory(p, seed)
+	}
 	g := &Gen{r: rand.New(rand.NewSource(seed)), p: p, usedK: map[int]bool{}}
 	r := g.r
 	g.cons = g.genCons()
@@ -441,6 +528,10 @@ func History(p *Profile, seed int64) []Op {
 				continue
 			}
 			sid := g.sids[r.Intn(len(g.sids))]
+			if g.p.NoLimit {
+				g.add(Op{Op: []string{"collect", "len"}[r.Intn(2)], Sid: sid})
+				continue
+			}
 			if r.Intn(100) < 25 {
 				g.add(Op{Op: "limit", Sid: sid, N: uint64([]int{0, 1, 2, 3, 100}[r.Intn(5)])})
 			}
@@ -456,7 +547,8 @@ func History(p *Profile, seed int64) []Op {
 		case "aidx":
 			g.add(Op{Op: "aidx", Field: g.field()})
 		case "reopen":
-			if r.Intn(2) == 0 || g.async {
+			if r.Intn(2) == 0 || g.async || g.p.NoLimit {
+				// (the pairs profile is replayed under an asynchronous configuration too)
 				g.add(Op{Op: "close"})
 			}
 			g.add(Op{Op: "reopen"})
@@ -609,6 +701,13 @@ var profiles = map[string]*Profile{
 	"iofault": {Name: "iofault", Len: [2]int{6, 16}, MaxK: 6, PIndex: 45, PUnique: 10, PUpper: 10, PLower: 10,
 		PCache: 60, PAsync: 0, PGz: 25, PLowerDir: 10, PExt: 20, PBadInput: 5, SweepEvery: 0, NoHostile: true,
 		Weights: map[string]int{"ins": 55, "many": 12, "bulk": 6, "del": 16, "reopen": 3}},
+	// C12: the same history replayed under two configurations (the check flips the settings)
+	"pairs": {Name: "pairs", Len: [2]int{15, 45}, MaxK: 10, PIndex: 45, PUnique: 12, PUpper: 15, PLower: 15,
+		PCache: 50, PAsync: 40, PGz: 40, PLowerDir: 40, PExt: 40, PBadInput: 10, PWrongProbe: 8, SweepEvery: 10, SearchSweep: true, NoLimit: true,
+		Weights: map[string]int{"ins": 30, "many": 5, "bulk": 2, "del": 8, "search": 16, "refine": 10, "collect": 14, "exist": 6, "get": 4, "count": 2, "all": 2, "sdel": 2, "reopen": 4}},
+	// C10: asynchronous writes in real time (custom generator: asyncHistory)
+	"async": {Name: "async", Len: [2]int{1, 1}, MaxK: 6, PIndex: 40, PUnique: 0, PUpper: 10, PLower: 10, NoHostile: true,
+		Weights: map[string]int{"ins": 1}},
 	// C18: layout
 	"layout": {Name: "layout", Len: [2]int{8, 30}, MaxK: 8, PIndex: 35, PUnique: 8, PUpper: 10, PLower: 10,
 		PCache: 40, PAsync: 30, PGz: 50, PLowerDir: 50, PExt: 50, SweepEvery: 0, NoHostile: true,
